@@ -22,7 +22,9 @@ import rulesets
 ID = "C15"
 TRUSTED = ["pickle.dump/load is the identity on int, bool, list of [str,int,int] (the .omn content is compared with the model state)",
            "configparser write/read round trip of the .sav file",
-           "the key-press thread is replaced by a stand-in: is_alive() == not pcfg.should_exit (thread timing is C12's subject)"]
+           "the key-press thread is replaced by an inert stand-in that never reads stdin; the quit is pcfg.should_exit set from the "
+           "print_guess wrapper (for a loop that polls thread liveness the stand-in's is_alive() is `not should_exit`); thread "
+           "timing and stdin are C12's subject"]
 ASSUMES = ["wf_tables G, first_below_max G", "a further pre-terminal is popped after the interrupted level (else nothing is saved: R18)",
            "the pop that follows does not have exactly the level's probability (else the level is in C08's tied group and is "
            "regenerated once)"]
